@@ -145,4 +145,19 @@ PROPS["C08"] = {
     "replay_hint": "from code_data import Constant; Constant(eval(a)) == Constant(eval(b)); hash(...)",
 }
 
+PROPS["C12"] = {
+    "imports": JSON_IMPORTS, "prelude": "Definition cfg := Cfg{TAG}.cfg.",
+    "level_text": "Theorem: any function accepted by the static check (every mutation targets a container the function itself allocated) leaves every pre-existing object unchanged, for all heaps, argument bindings and "
+                  "paths through branches/loops; the loaders' statement structure is re-translated from the source on every run and re-checked (Example C12_loaders_are_accepted), so an assignment through "
+                  "an object of the input breaks the proof obligation. Repeatability / independence of history / fresh results are decided by histories of interleaved calls with deep snapshots and by comparing the n-th call with the stateless model",
+    "level_note": "no-input-mutation is proved for the translated statement structure; the translation (which expression allocates, which aliases) is trusted and fail-closed; from_code/to_code/normalize take immutable arguments "
+                  "(code objects, frozen dataclasses of tuples) - their purity clause is decided by the history oracle",
+    "trusted_base": COMMON_TB + ["harness/translate_src.py heap-op translation (Gen/SrcHeap.v): which statements allocate / alias / read / mutate containers; calls to constructors, builtins and the "
+                                 "functions translated here are taken not to mutate their arguments"],
+    "assumptions": ["stdlib callables used by the loaders (copy, tuple, dict(**), literal_eval, b64decode, dataclass constructors) do not mutate their arguments"],
+    "rule": "histories of 9-35 interleaved API calls (from_code, to_code, normalize, to_json_data, from_json_data, poisoning of returned documents) on shared objects, with deep snapshots of every argument after every call; "
+            "distinct = distinct (object, step, operation)",
+    "replay_hint": "replay data.history on the named program: d = CodeData.from_code(c); doc = json.loads(json.dumps(d.to_json_data())); ...",
+}
+
 NOT_CLAIMED = {}
